@@ -109,7 +109,7 @@ func runP7Sym(sc M) {
 			if err := d.Unmarshal(src); err != nil {
 				return false, err
 			}
-			honest := buildSymBlob("data", "none", []symSigner{{Sid: str(sc, "cert"), SigKey: map[string]string{"A": "k1", "B": "k2", "At": "k2"}[str(sc, "cert")], SigOver: "attrs_as_encoded", Attrs: "present", CT: "data", MD: "m1", Order: "canonical"}}, "signer", false, dg)
+			honest := buildSymBlob("data", "none", []symSigner{{Sid: str(sc, "cert"), SigKey: map[string]string{"A": "k1", "B": "k2", "At": "k2", "Ae": "k3", "Ac": "k3"}[str(sc, "cert")], SigOver: "attrs_as_encoded", Attrs: "present", CT: "data", MD: "m1", Order: "canonical"}}, "signer", false, dg)
 			src.Reset()
 			src.Write(mk(honest))
 			return d.Verify(cert)
@@ -119,7 +119,7 @@ func runP7Sym(sc M) {
 		callStart(id, "p7-shared", nil)
 		oS, _ := guard(func() error {
 			fresh := map[string]string{}
-			for _, cn := range []string{"A", "B", "At"} {
+			for _, cn := range []string{"A", "B", "At", "Ae", "Ac"} {
 				p, err := pkcs7.ParsePKCS7(wrapped)
 				if err != nil {
 					return nil
@@ -127,7 +127,7 @@ func runP7Sym(sc M) {
 				ok, e := p.Verify(certByName(cn))
 				fresh[cn] = verdict(ok, e, Outcome{Kind: "value"})
 			}
-			for _, order := range [][]string{{"A", "At", "B", "A"}, {"At", "A", "At"}, {"B", "At", "A", "B"}, {str(sc, "cert"), "A", "At", "B", str(sc, "cert")}} {
+			for _, order := range [][]string{{"A", "At", "B", "A"}, {"At", "A", "At"}, {"B", "At", "A", "B"}, {"Ae", "A", "Ac", "At"}, {str(sc, "cert"), "A", "At", "B", str(sc, "cert")}} {
 				p, err := pkcs7.ParsePKCS7(wrapped)
 				if err != nil {
 					return nil
